@@ -32,6 +32,7 @@ try:
     if demo_dir.startswith('v4/'): demo_dir = demo_dir[3:]
     if demo_dir in ('.', 'v4', ''): demo_dir = ''
     demos = [f for f in os.listdir(src) if f.endswith('_test.go')]
+    race = ' -race' if '-race' in meta.get('demo_cmd', '') else ''
     assert demos, 'no demo test'
     rc, o = run(['git', 'apply', '--check', src + '/patch.diff'], cwd=wt)
     out['applies'] = rc == 0
@@ -40,11 +41,11 @@ try:
         raise SystemExit(json.dumps(out, indent=1))
     # without the patch: demo passes
     for d in demos: shutil.copy(os.path.join(src, d), os.path.join(wt, 'v4', demo_dir, d))
-    rc, o = run('go test -vet=off -count=1 ./' + (demo_dir or '.') + '/', cwd=wt + '/v4')
+    rc, o = run('go test -vet=off -count=1' + race + ' ./' + (demo_dir or '.') + '/', cwd=wt + '/v4')
     out['demo_passes_without_change'] = rc == 0
     if rc != 0: out['demo_without_output'] = o[-800:]
     run(['git', 'apply', src + '/patch.diff'], cwd=wt)
-    rc, o = run('go test -vet=off -count=1 ./' + (demo_dir or '.') + '/', cwd=wt + '/v4')
+    rc, o = run('go test -vet=off -count=1' + race + ' ./' + (demo_dir or '.') + '/', cwd=wt + '/v4')
     out['demo_fails_with_change'] = rc != 0
     out['demo_output'] = o[-600:]
     for d in demos: os.remove(os.path.join(wt, 'v4', demo_dir, d))
